@@ -10,6 +10,81 @@ from vf.pipeline import Group, Replay, ALL_LIB
 
 ID = 'C07'
 LEVEL = 'proof'
+EXPLANATION = (
+    'Two levels.  (1) Memory level, bounded in canvas dimension (the index (y*w+x)*channels is non-linear): read_pixel / write_pixel for the four channel '
+    'widths and both alpha modes throw out_of_range iff (x,y) is outside, touch exactly the channels of pixel (x,y) (a second symbolic pixel keeps its bytes) and '
+    'assign nothing but the pixel buffer; set_channel_width / set_has_alpha / copy (per-sample loop contracts) likewise.  (2) Ghost-pixel level, unbounded: a canvas is '
+    'abstracted by the value of ONE symbolic pixel D (and the source / mask pixel that feeds it); the accessors are bound to the canonical model of their loop-level '
+    'contract, whose clauses are the very macros that are the memory-level postconditions.  Against that model every loop nest (fill_rect, clear, blit, the three '
+    'mask_blits, mask_blit_dst, both blend_blits, both custom_blits, invert, mirrors, set_alpha_from_mask_color, axis lines, the text glyph loops) is closed by nested '
+    'loop contracts: out_of_range never escapes, D receives rule(source pixel, old D) iff it lies in the requested rectangle and its source pixel exists, else it is '
+    'untouched -- for coordinates |v| < 2^61 and any canvas size below 2^61 (2^31 where the code counts with int).  clamp_blit_dimensions is proved equal to the '
+    'intersection model by a chain of per-step ghost flags (one link per group).  Blend arithmetic is outlined mechanically into helper functions, each proved equal '
+    'to the specification formula for all arguments (SMT), and bound in the loop proofs through function-point ghosts so that no multiplication/division occurs in a '
+    'loop verification condition; lemma wrappers then state the rules with explicit arithmetic.  Identities (mirror twice, invert twice, widen-narrow) and clipping '
+    'invariance are lemmas over the contracts.')
+TRUSTED = [
+    'contracts/C07_clauses.h, C07_image.h, C07_pixel_mem.h, C07_reshape.h: the specification macros (per-pixel model: INRECT / BLIT_HITS / AXIS_MODEL, stored form of a pixel WCH / WA, '
+    'the colour rules; BL8 / BLM pin the blend arithmetic of the pinned commit)',
+    'stubs/C07_pixel_model.h: canonical havoc-and-assume models of the loop-level contracts of read_pixel / write_pixel (proved to satisfy those contracts by the '
+    'groups Image.model.*; they assume exactly the ensures clause macros), of the custom_blit callback (an arbitrary stateless function sampled at one argument tuple) '
+    'and of the outlined arithmetic helpers (function-point form of the helper contracts proved by Image.*.arith[k]; the definitional hypothesis g_bo == formula(tuple) '
+    'is a precondition DEF_REQ wherever a loop-level contract is used)',
+    'the link between the memory-level obligations and the loop-level accessor contract is the shared clause macros WP_EXC / WP_PIX / RP_PIX (same text, "ghost value" '
+    'instantiated by "channels decoded from the buffer"); that the decoded value IS the abstract pixel is by inspection of MEM_* in contracts/C07_pixel_mem.h',
+    'stubs/C07_alloc.h (malloc returns non-null), stubs/libc.h (memcpy contract)',
+    'props/C07.py: the try/catch lowering (lower_try), overload resolution by argument count (member_calls) and the mechanical outlining of arithmetic sub-expressions (Outliner)',
+    'contracts/C07_types.h: union DataPtrs mirrored as its single pointer (cbmc 6.11 loses stores through pointers read out of a union); X.asN[i] -> ((uintN_t*)X.raw)[i] by must-fire rules',
+]
+ASSUMPTIONS = [
+    'Image type invariant: channel_width in {8,16,32,64}, max_value == 2^channel_width - 1, width, height >= 0 (constructors establish it; not re-proved here)',
+    'coordinates and sizes |v| < 2^61, canvas dimensions < 2^61 (no signed overflow, which is UB, in the clipping arithmetic); for the functions that count pixels with an '
+    'int (mask_blit(r,g,b), mask_blit_dst, blend_blit x2, custom_blit x2) canvas dimensions <= INT_MAX: beyond that their loop counters overflow',
+    'source, mask and destination canvases are distinct objects (self-blits such as img.mask_blit(img, ..) of ImageTest are order-dependent and outside the per-pixel model)',
+    'custom_blit callbacks are stateless functions of their arguments and do not throw',
+    'memory-level obligations: canvas width and height <= 8 (quick) / 16 (thorough) for the accessors, < 16 / 32 for the whole-buffer operations (symbolic within the bound); '
+    'allocation succeeds (the code does not test the result of malloc)',
+    'quick tier leaves the pointer-dereference checks out of the ghost-level loop groups (they touch no pixel memory -- checked syntactically on the extracted text -- and the '
+    '~1300 checks of clause evaluations tripled solver time); the thorough tier re-runs those groups with all checks',
+    'draw_text_v: the formatted text is a byte string parameter of at most 2^40 bytes (string_vprintf is libc), |x|,|y| < 2^60',
+]
+DROPS = ('member functions -> C functions with explicit self; references -> pointers; overloads renamed by signature (_c = uint32_t colour form, _rgb, _mask, _alpha, _rgba); '
+         'default arguments made explicit; `auto ec` -> ExpandedColor; try { .. } catch (const out_of_range&) { H } -> flag test after each accessor call; '
+         'std::function callback parameter -> call of the callback model; string_vprintf(fmt, va) -> byte-string parameter; member-initialiser lists -> assignments; '
+         'arithmetic sub-expressions with * or / outlined into helper functions (same text); union DataPtrs -> its single pointer (see TRUSTED); malloc -> verif_malloc (non-null)')
+NOT_DECIDED = [
+    'draw_line (Bresenham with double-precision error accumulation): connectedness, pixel count max(|dx|,|dy|)+1, end points, distance from the ideal segment -- floating-point loop, '
+    'no contract attempted (a bounded check on canvases <= 8x8 was not built); only its try/catch structure is like the axis lines',
+    'resize_blit (floating point bilinear filter; it also lets out_of_range escape by design of read_pixel on source coordinates): not under contract',
+    'which pixels a DASHED axis line colours and which pixels a line that starts outside the canvas colours: the code stops at the first out-of-canvas pixel (a horizontal line from x1 < 0 '
+    'draws nothing); decided here: no exception, nothing off the segment changes, a changed pixel gets exactly the colour, a solid line between in-canvas end points is complete',
+    'the pixel model of text (which glyph pixels are set, returned width/height) and its clipping invariance as a single statement: decided are no exception for any byte string, glyph table '
+    'index in range, no overflow; rendering goes through fill_rect (clipping-invariant by lemma) and swallowed write_pixel only (the native replay driver checks text clipping invariance on samples)',
+    'the blend arithmetic itself is regression-strength: fill_rect and blit use the constants 0xFF / 255 for every channel width (a 16-bit canvas without alpha channel reports alpha 0xFFFF, '
+    'which blit treats as "blend"), Image.hh still documents blit as "doesn\'t respect alpha" and the drawing functions as "no drawing functions respect the alpha channel"; the contracts pin what '
+    'the pinned commit computes, whether that is intended is not decided.  Specification-strength are: which pixels change, never out_of_range, frame, clipping, the copy/mask/key rules',
+    'a negative w / h meaning "whole source width / height" is taken from the code (Image.hh is silent)',
+    'sequences of operations: every operation is one obligation over an arbitrary canvas state (the symbolic pixel is universally quantified), the induction over a history is the argument, not a query',
+    'copy assignment onto itself (a = a frees the buffer before copying from it) and allocation failure are outside the contracts (distinct objects / non-null malloc assumed)',
+    'BitmapImage, load/save (C06), constructors from files',
+]
+CLAIMED = True
+MANIFEST = dict(
+    category='proof',
+    text=('Every canvas operation of Image is put under a function contract over a one-symbolic-pixel view and closed by (nested) loop contracts for coordinates |v| < 2^61 and any canvas '
+          'size: direct pixel access throws out_of_range iff outside; fill_rect, clear, blit, mask_blit (colour key, destination key, mask image), blend_blit (both), custom_blit (both), invert, '
+          'reverse_horizontal/vertical, set_alpha_from_mask_color, the axis-aligned lines and the text glyph loops never let out_of_range escape and change exactly the pixels the per-pixel model '
+          'prescribes (destination rectangle clipped against both canvases gets rule(source, old), everything else untouched); clamp_blit_dimensions equals the intersection model (sound and '
+          'maximal); clipping invariance, mirror twice, invert twice, widen-then-narrow are lemmas over the contracts; copies are deep, moves empty the source.  The pixel accessors and the '
+          'whole-buffer operations (set_channel_width, set_has_alpha, copy) are proved against memory for bounded canvas dimensions (<= 8/16 resp. < 16/32), reported as bounded.  Found and '
+          'fixed: mask_blit(.., mask) let out_of_range escape when sx or sy > 0 (mask checked against w,h only).'),
+    note=('Trusted: cbmc/goto-instrument/solvers, the extractor, the specification macros, the canonical accessor/helper models (stubs/C07_pixel_model.h; model |= contract is proved, the link to '
+          'memory is the shared clause macros).  Blend arithmetic is pinned to the commit (regression-strength); draw_line, resize_blit, dashed/out-of-canvas line pixels and the text pixel model are '
+          'not decided.  Distinct source/mask/destination, stateless callbacks, successful allocation, int-counted variants up to INT_MAX-sized canvases are assumed.'),
+    technique='function + nested loop contracts over a ghost pixel (goto-instrument --dfcc --apply-loop-contracts), clamp by a chain of ghost-flag lemmas, outlined arithmetic proved by SMT, '
+              'bounded memory-level obligations for the index arithmetic',
+)
+
 CC = 'src/Image.cc'
 HH = 'src/Image.hh'
 FONT = 'src/ImageTextFont.hh'
@@ -326,7 +401,7 @@ def reshape_unit(ctx, src):
     """whole-buffer operations, memory level"""
     u = Unit(ctx, 'reshape')
     u.raw('#include "stubs/C07_alloc.h"')
-    MA = Rule(r'\bmalloc\(', 'verif_malloc(', regex=True, count=1)      # "allocation succeeds" (the code does not test the result)
+    MA = Rule(r'\bmalloc\(', 'verif_malloc(', regex=True, count=None)      # "allocation succeeds" (the code does not test the result)
     AS = [MA, Rule(r'\b(self->data|new_data|im->data)\.as(8|16|32|64)\[', r'((uint\2_t*)\1.raw)[', regex=True, count='+')]
     u.raw('#if defined(OW) && defined(NW)')
     u.function(src, CC, sig('void Image::set_channel_width(uint8_t new_width)'), new_header='void Image_set_channel_width(Image* self, uint8_t new_width)',
@@ -344,7 +419,7 @@ def reshape_unit(ctx, src):
         if len(out) != 5:
             raise ExtractionBreak('copy constructor: %d member initialisers, 5 expected' % len(out))
         return ' ' + ' '.join(out) + ' '
-    IM = [MA, Rule(r'\bim\.', 'im->', regex=True, count='+'), Fn(member_calls), Rule('memcpy(', 'verif_memcpy(', count=1)]
+    IM = [MA, Rule(r'\bim\.', 'im->', regex=True, count='+'), Fn(member_calls), Rule('memcpy(', 'verif_memcpy(', count=None)]
     pre = init_list(r'Image::Image\(const Image& im\)\s*:\s*(.*?)\s*\{').replace('im.', 'im->')
     u.function(src, CC, r'Image::Image\(const Image& im\)\s*:[^{]*', new_header='void Image_copy_ctor(Image* self, const Image* im)',
                rules=IM, body_prefix=pre)
@@ -562,6 +637,7 @@ def plan(ctx):
     CLAUSES = ['origins, offset, bounds, in-range spans, final rectangle'] + \
               ['%s axis: model invariant under clipping step %d' % (a, k) for a in 'xy' for k in (1, 2, 3, 4)]
     CLAUSES = CLAUSES[:5] + ['x axis: model after the last step == span membership'] + CLAUSES[5:] + ['y axis: model after the last step == span membership']
+    CLAUSES += ['x axis: closed form of origin, source origin and span', 'y axis: closed form of origin, source origin and span']
     for k, what in enumerate(CLAUSES):
         G('clamp_blit_dimensions[%d]' % k, 'clamp', 'clamp_blit_dimensions (%s)' % what, 'clamp_blit_dimensions', defines=['CLAMP_ONLY=%d' % k],
           engines=['cadical', 'minisat'], first='cadical', stage1=100, timeout=300)
@@ -600,37 +676,30 @@ def plan(ctx):
     ctx.functions_under_contract += ur.functions
     HR = 'harness/C07/reshape.c'
 
-    def R(name, entry, function, enforce, defines, replace=(), loops=False, kind=None, **kw):
-        out = []
-        for bits, tier in ((4, 'quick'), (5, 'thorough')):
-            if kw.get('tier') == 'thorough' and bits == 4:
-                continue
-            lemma = kind == 'lemma' or entry.startswith('h_move')
-            if lemma and bits == 5:
-                continue
-            k2 = dict(kw)
-            k2['tier'] = tier if not lemma else 'quick'
-            g = Group(name='Image.' + name + ('' if lemma else '[dim<%d]' % (1 << bits)), harness=HR, entry=entry, function=function, enforce=enforce,
-                      replace=list(replace), loops=loops, defines=list(defines) + ['RS_DIMBITS=%d' % bits],
-                      kind=kind or ('loop-free' if lemma else 'bounded'), object_bits=10, replay=RP(entry[2:]), timeout=300, 
-                      bound='' if lemma else 'canvas width and height < %d (symbolic within the bound); every sample value' % (1 << bits), **k2)
+    def R(name, entry, function, enforce, defines, replace=(), loops=False, kind=None, tiers=((4, 'quick'), (5, 'thorough')), **kw):
+        """tiers: (RS_DIMBITS, tier) instances of a dimension-bounded group; lemmas and the loop-free moves have no bound"""
+        unbounded = kind == 'lemma' or entry.startswith('h_move')
+        for bits, tier in (((4, 'quick'),) if unbounded else tiers):
+            g = Group(name='Image.' + name + ('' if unbounded else '[dim<%d]' % (1 << bits)), harness=HR, entry=entry, function=function, enforce=enforce,
+                      replace=list(replace), loops=loops, defines=list(defines) + ['RS_DIMBITS=%d' % bits], tier=tier,
+                      kind=kind or ('loop-free' if unbounded else 'bounded'), object_bits=10, replay=RP(entry[2:]), timeout=300 if tier == 'quick' else 900,
+                      bound='' if unbounded else 'canvas width and height < %d (symbolic within the bound); every sample value' % (1 << bits), **kw)
             gs.append(g)
-            out.append(g)
-        return out
     for ow in (8, 16, 32, 64):
         for nw in (8, 16, 32, 64):
             if ow == nw:
                 continue
             for ha in (0, 1):
                 R('set_channel_width[%d->%d,alpha=%d]' % (ow, nw, ha), 'h_set_channel_width', 'Image::set_channel_width', 'Image_set_channel_width',
-                  ['OW=%d' % ow, 'NW=%d' % nw, 'HA=%d' % ha], loops=True, tier='quick' if ha == 1 else 'thorough')
+                  ['OW=%d' % ow, 'NW=%d' % nw, 'HA=%d' % ha], loops=True, tiers=((4, 'quick'), (5, 'thorough')) if ha == 1 else ((4, 'thorough'),))
             if nw > ow:
                 R('set_channel_width.widen_narrow[%d->%d->%d]' % (ow, nw, ow), 'l_widen_narrow', 'Image::set_channel_width (widen then narrow == identity, per sample)',
                   None, ['OW=%d' % ow, 'NW=%d' % nw, 'HA=1'], kind='lemma')
     for cw in (8, 16, 32, 64):
         for ha in (0, 1):
+            # width*height is re-evaluated in the loop condition: the slowest of the bounded groups (cvc5 answers first)
             R('set_has_alpha[cw=%d,%s]' % (cw, 'drop' if ha else 'add'), 'h_set_has_alpha', 'Image::set_has_alpha', 'Image_set_has_alpha',
-              ['CWA=%d' % cw, 'HA=%d' % ha], loops=True)
+              ['CWA=%d' % cw, 'HA=%d' % ha], loops=True, tiers=((3, 'quick'), (4, 'thorough')) if cw == 8 else ((4, 'thorough'),), first='cvc5', stage1=150)
     R('copy_constructor', 'h_copy_ctor', 'Image::Image(const Image&)', 'Image_copy_ctor', [], replace=['verif_memcpy'])
     for on in (0, 1):
         R('copy_assignment[%s]' % ('empty target' if on else 'target with a buffer'), 'h_copy_assign', 'Image::operator=(const Image&)', 'Image_copy_assign',
